@@ -644,6 +644,15 @@ class Gen:
             i += 1
         return out
 
+    @staticmethod
+    def fresh_names_ok(name):
+        """[name] if it is an ordinary identifier: not a Python keyword / builtin the printers rename or the generators reserve
+        (identifier capture is C19's subject; the other checks use names the generated code keeps as they are)"""
+        import keyword
+        reserved = {"dt", "t", "time", "states", "parameters", "values", "shape", "missing_variables", "numpy", "math", "jax", "pi", "E", "I",
+                    "S", "N", "O", "Q", "re", "im", "len", "abs", "exp", "log", "sin", "cos", "tan", "sqrt", "floor", "ln"}
+        return [] if (keyword.iskeyword(name) or keyword.issoftkeyword(name) or name in reserved) else [name]
+
     def model(self, n_states=None, n_params=None, n_inters=None, n_comps=None, shape=None,
               p_unused=0.2, decorate=False, self_dep=0.0):
         rng = self.rng
@@ -662,7 +671,8 @@ class Gen:
                 if len(grp) >= 2:
                     j = rng.randrange(1, len(grp))
                     new = grp[0] + rng.choice(["r", "_sr", "s", "2", "_", "_inf"])
-                    if new not in names and new not in GRAMMAR_WORDS and not (new.startswith("d") and new.endswith("_dt")):
+                    if (new not in names and new not in GRAMMAR_WORDS and not (new.startswith("d") and new.endswith("_dt"))
+                            and new in self.fresh_names_ok(new)):
                         names[names.index(grp[j])] = new
                         grp[j] = new
         comps = [""] if n_comps == 1 and rng.random() < 0.6 else [rng.choice(["Membrane", "I Na", "gate", "Ca", "main", "X-gate", "B"]) + (str(i) if i else "") for i in range(n_comps)]
